@@ -137,9 +137,9 @@ def build_key(k):
     raise core.HarnessError('bad key spec %r' % (k,))
 
 
-def build_value(v):
+def build_value(v, memo=None):
     if isinstance(v, dict):
-        return build_mapping(v)
+        return build_mapping(v, memo)
     t = v[0]
     if t == 's':
         return v[1]
@@ -150,14 +150,27 @@ def build_value(v):
     if t == 'n':
         return None
     if t == 'l':
-        return [build_value(x) for x in v[1]]
+        return [build_value(x, memo) for x in v[1]]
     if t == 'T':
-        return tuple(build_value(x) for x in v[1])
+        return tuple(build_value(x, memo) for x in v[1])
     raise core.HarnessError('bad value spec %r' % (v,))
 
 
-def build_mapping(spec):
-    pairs = [(build_key(k), build_value(v)) for k, v in spec['items']]
+def build_mapping(spec, memo=None):
+    """memo (a dict) makes equal sub-specs share one object: the same
+    Mapping object is then reachable along several paths (aliasing)."""
+    if memo is not None:
+        mk = json.dumps(spec, sort_keys=True)
+        if mk in memo:
+            return memo[mk]
+        obj = _build_mapping(spec, memo)
+        memo[mk] = obj
+        return obj
+    return _build_mapping(spec, None)
+
+
+def _build_mapping(spec, memo):
+    pairs = [(build_key(k), build_value(v, memo)) for k, v in spec['items']]
     m = spec['m']
     if m == 'dict':
         return dict(pairs)
@@ -302,7 +315,7 @@ def oracle(col, case, sub='random'):
                         'TypeError' % (arg, res), case)
     extra = tuple(k for k in getattr(strutils, '_SANITIZE_KEYS', ())
                   if isinstance(k, str) and k not in PINNED)
-    arg = build_mapping(spec)
+    arg = build_mapping(spec, {} if case.get('share') else None)
     stats = spec_stats(spec)
     depth = spec_depth(spec)
     nontrivial = (depth >= 2 or stats['nonstr'] or
@@ -312,6 +325,8 @@ def oracle(col, case, sub='random'):
            'mask/%s' % ('default' if secret is None else 'custom')]
     cls += ['type/' + t for t in sorted(stats['types'])]
     cls += sorted(stats['values'])
+    if case.get('share'):
+        cls.append('shared-objects')
     if stats['secret_keys']:
         cls.append('has-secret-key')
     col.case(sub, json.dumps(case, sort_keys=True), nontrivial, tuple(cls),
@@ -380,6 +395,12 @@ def family(col, lo, hi):
                                    [['s', 'list'], ['l', [inner]]]]}
                 oracle(col, {'arg': outer,
                              'secret': '???' if (vi + pi) % 2 else None}, sub)
+                if pi == 0:
+                    twice = {'m': 'dict', 'items': [
+                        [['s', 'a'], inner], [['s', 'b'], inner],
+                        [['s', kstr], inner]]}
+                    oracle(col, {'arg': twice, 'secret': None,
+                                 'share': True}, sub)
                 n += 2
         # every value kind under the plain key, every mapping type
         for val in VALUE_KINDS:
@@ -494,8 +515,26 @@ def _strategies():
     deep3 = mapping_of(st.one_of(scalar, deep4, deep4), 3, 1)
     deep = mapping_of(st.one_of(scalar, deep3, deep3, deep4), 4, 1)
     secret = st.sampled_from([None, None, '???', '', 'MASKED', '*'])
-    return st.fixed_dictionaries({'arg': st.one_of(top, deep),
-                                  'secret': secret})
+
+    @st.composite
+    def cases(draw):
+        arg = draw(st.one_of(top, deep))
+        case = {'arg': arg, 'secret': draw(secret)}
+        nested = [v for _k, v in arg['items'] if isinstance(v, dict)]
+        if nested and draw(st.integers(0, 2)) == 0:
+            # the same mapping (object) stored again: as a sibling, inside a
+            # list, and one level further down
+            dup = draw(st.sampled_from(nested))
+            arg['items'].append([['s', 'again'], dup])
+            if draw(st.booleans()):
+                arg['items'].append([['s', 'in_list'], ['l', [dup, dup]]])
+            if draw(st.booleans()):
+                arg['items'].append([['s', 'wrapped'],
+                                     {'m': 'dict',
+                                      'items': [[['s', 'inner'], dup]]}])
+            case['share'] = True
+        return case
+    return cases()
 
 
 def search(col, seed, max_examples):
